@@ -193,6 +193,19 @@ def main(tier):
                 allf = {k: v.replace("\n", nl) for k, v in ff.items()}
                 cases.append({"id": cid, "files": {k: b64(v) for k, v in allf.items()}, "root": "main.jst"})
                 files_of[cid] = allf
+    # an INCLUDE of a file that exists but cannot be read, in the root file and in an included file: the diagnostic is at
+    # that INCLUDE and its chain is the chain of the file the INCLUDE stands in
+    unread = {
+        "unreadable_from_root": ({"main.jst": "JSIGHT 0.3\nTYPE @za any\nINCLUDE bad.jst\nTYPE @zb any\n", "bad.jst": "TYPE @zc any\n"}, ["bad.jst"]),
+        "unreadable_from_included": ({"main.jst": "JSIGHT 0.3\nTYPE @za any\n\n\nINCLUDE a.jst\n", "a.jst": "TYPE @zd any\n\nINCLUDE sub/bad.jst\n",
+                                      "sub/bad.jst": "TYPE @zc any\n"}, ["sub/bad.jst"]),
+        "unreadable_second_include": ({"main.jst": "JSIGHT 0.3\nINCLUDE ok.jst\nINCLUDE a.jst\n", "ok.jst": "TYPE @ze any\n", "a.jst": "INCLUDE ok2.jst\nINCLUDE bad.jst\n",
+                                       "ok2.jst": "TYPE @zf any\n", "bad.jst": "TYPE @zc any\n"}, ["bad.jst"]),
+    }
+    for nm, (ff, noread) in unread.items():
+        cid = "u_" + nm
+        cases.append({"id": cid, "files": {k: b64(v) for k, v in ff.items()}, "root": "main.jst", "noread": noread})
+        files_of[cid] = ff
     obs = harness("run", cases)
     loc_pairs, loc_src = [], []
     for c in cases:
